@@ -482,7 +482,7 @@ pub struct LayoutStats {
 pub fn gen_layout_script(id: usize, rng: &mut Sm, numpy_env: bool, st: &mut LayoutStats) -> Value {
     // one script in thirty on a coarse grid: a tick so large that the whole price range holds about as many grid prices as
     // the ten levels the arrays publish (9 * tick still fits into the price type)
-    let coarse = rng.chance(0.033);
+    let coarse = rng.chance(0.08);
     let tick = if coarse { rng.range((1u64 << 32) / 13, (u32::MAX as u64) / 9) as u32 } else { rng.range(1, 10) as u32 };
     let t0 = rng.below(1000);
     // one script in sixteen runs with a degenerate step size (0, 1 or 2 time units per step) and at most step_size + 1
@@ -515,7 +515,8 @@ pub fn gen_layout_script(id: usize, rng: &mut Sm, numpy_env: bool, st: &mut Layo
     if coarse {
         st.coarse_grid_scripts += 1;
     }
-    let center = if coarse { rng.range(1, coarse_max_k - 1) } else if bottom { rng.range(1, 11) } else if max_ask { top_k - rng.range(3, 9) } else if top { (u32::MAX as u64 - 1) / tick as u64 - rng.range(12, 40) } else { rng.range(50, 3000) };
+    // (coarse grids: the centre may sit on or above the highest grid price, so that bids reach the top of the range and asks have no room)
+    let center = if coarse { if rng.chance(0.4) { coarse_max_k + rng.below(2) } else { rng.range(1, coarse_max_k + 1) } } else if bottom { rng.range(1, 11) } else if max_ask { top_k - rng.range(3, 9) } else if top { (u32::MAX as u64 - 1) / tick as u64 - rng.range(12, 40) } else { rng.range(50, 3000) };
     let mut calls: Vec<Value> = Vec::new();
     let n_steps = rng.range(2, 12);
     let mut reenable = false;
@@ -547,11 +548,11 @@ pub fn gen_layout_script(id: usize, rng: &mut Sm, numpy_env: bool, st: &mut Layo
         let mut traders = Vec::new();
         let mut prices = Vec::new();
         for k in 0..(nb + na) {
-            let bid = k < nb;
+            let bid = k < nb || (coarse && center + 1 > coarse_max_k); // no room above the centre on a coarse grid: bids only
             let lo_off = if rng.chance(0.15) { 0 } else { 1 };
             // ladders populate every level 1..12 on both sides, so the deepest published levels are non-empty
             let off = if ladder { 1 + (if bid { k } else { k - nb }) as u64 } else { rng.range(lo_off, 12) };
-            let off = if bid { off.min(center) } else if max_ask { off.min(top_k - center) } else if coarse { off.min(coarse_max_k - center) } else { off };
+            let off = if bid { off.min(center).max(if coarse { center.saturating_sub(coarse_max_k) } else { 0 }) } else if max_ask { off.min(top_k - center) } else if coarse { off.min(coarse_max_k.saturating_sub(center)) } else { off };
             let p = if bid { center - off } else { center + off } * tick as u64;
             sides.push(bid);
             vols.push(rng.range(1, if bid { 40 } else { 90 }) as u32);
